@@ -408,3 +408,14 @@ def replay(prop, path):
     log("to re-observe on the current tree, re-run the check with the same VERIF_SEED "
         f"({v.get('seed')}) and tier ({v.get('tier')})")
     return 1 if r["viol"] else 0
+
+
+# plans contributed as separate modules bin/plan_Cxx.py: each defines plan(prop, tier, seed, t0), META (dict) and ENGINE (dict)
+import glob as _glob, importlib as _importlib
+for _f in sorted(_glob.glob(os.path.join(os.path.dirname(os.path.abspath(__file__)), "plan_C*.py"))):
+    _name = os.path.basename(_f)[:-3]
+    _m = _importlib.import_module(_name)
+    _pid = _name.split("_")[1]
+    PLANS[_pid] = _m.plan
+    META[_pid] = _m.META
+    ENGINES.append(_m.ENGINE)
